@@ -88,6 +88,21 @@ class Monitor(object):
 
 
 class Run(object):
+    def _query_noise(self):
+        """read-only questions a provider may ask between events: has_next_tasks() for the workflow and for the most recent
+        completed task records.  They are pure on correct code, so they cannot raise an alarm by themselves; a change that
+        lets a query repopulate engine memory (a memo filled by the query path) shows in what the other monitors see next."""
+        n = 0
+        try:
+            self.c.has_next_tasks()
+            for e in self.c.workflow_state.sequence[-6:]:
+                if e.get("status") in COMPLETED:
+                    self.c.has_next_tasks(e["id"], e["route"])
+                    n += 1
+        except Exception:  # noqa
+            self.counters["query_noise_exc"] = self.counters.get("query_noise_exc", 0) + 1
+        self.counters["query_noise"] = self.counters.get("query_noise", 0) + n
+
     def __init__(self, wf, inputs=None, outcomes=None, monitors=(), model=None, double_poll=False,
                  ack_chain=False, label=None, loop_var="i", precrash=False):
         self.wf = wf
@@ -237,6 +252,7 @@ class Run(object):
                 for m in self.monitors:
                     if hasattr(m, "on_double_poll"):
                         m.on_double_poll(self, ev, ev2)
+                self._query_noise()
             nt = ev["ret"] if ev["exc"] is None else []
             if ev["exc"] is not None:
                 self.trace.append(("poll-EXC", repr(ev["exc"])[:200]))
